@@ -89,6 +89,9 @@ class LiteralToken(RegexpBaseToken):
         super().__init__(*args, *kwargs)
 
         if self.value[2]:
+            if len(self.value[2]) > 400 or len(self.value[5] or '') > 400:
+                # no Excel number has that many digits, and int() refuses to read more than 4300 of them with an error of its own
+                raise E2PyclParserException(f'Numeric literal of {len(self.value[0])} characters is out of range')
             # TODO in theory, the degree can be calculated using the expression
             if self.value[5] or (self.value[7] and int(self.value[7]) < 0):
                 # the literal denotes the double nearest to its decimal text (int + float('0.frac') is an ulp off)
